@@ -144,11 +144,16 @@ ParamSpec paramSpecOf(const Op &op) {
 static ezc3d::ParametersNS::GroupNS::Parameter makeParameter(const ParamSpec &s, Outcome &setOutcome) {
     ezc3d::ParametersNS::GroupNS::Parameter p(s.name, s.desc);
     try {
-        if (s.type == 0) { if (s.dims.empty()) p.set(s.ints); else p.set(s.ints, s.dims); }
-        else if (s.type == 1) {
+        // a single value without explicit shape goes through the scalar overloads (set(int), set(size_t), set(float), set(double), set(string)) half of the time
+        const bool scalar = s.dims.empty() && s.count == 1 && (s.desc.size() % 2 == 0);
+        if (s.type == 0) {
+            if (scalar) { if (s.ints[0] >= 0 && s.ints[0] % 2 == 0) p.set(static_cast<size_t>(s.ints[0])); else p.set(s.ints[0]); }
+            else if (s.dims.empty()) p.set(s.ints); else p.set(s.ints, s.dims);
+        } else if (s.type == 1) {
             std::vector<float> v; for (uint32_t b : s.floats) v.push_back(bitsToFloat(b));
-            if (s.dims.empty()) p.set(v); else p.set(v, s.dims);
-        } else if (s.type == 2) { if (s.dims.empty()) p.set(s.strs); else p.set(s.strs, s.dims); }
+            if (scalar) { if (s.floats[0] % 2 == 0 || v[0] != v[0]) p.set(v[0]); else p.set(static_cast<double>(v[0])); }   // (a NaN payload does not survive the double overload: hardware conversion)
+            else if (s.dims.empty()) p.set(v); else p.set(v, s.dims);
+        } else if (s.type == 2) { if (scalar) p.set(s.strs[0]); else if (s.dims.empty()) p.set(s.strs); else p.set(s.strs, s.dims); }
     } catch (...) { setOutcome = classifyCurrentException(); }
     if (s.lock) p.lock();
     return p;
